@@ -196,7 +196,43 @@ def validate(out, runs, name, chunk_runs=400, report=True):
     return accepted, bad
 
 
-def race_and_validate(out, seed, hr_args, name, timeout):
+def binding_selftest(out, runs):
+    """The validator must have teeth on this very recording: one corrupted answer hash and one dropped Drop event
+    must each be rejected, the first at exactly that line.  (A validator that accepts them is a tool error.)"""
+    part = [list(r) for r in runs[:25]]
+    flat = [(i, j) for i, r in enumerate(part) for j in range(len(r))]
+    oks = [(i, j) for (i, j) in flat if '"res":"ok"' in part[i][j]]
+    drops = [(i, j) for (i, j) in flat if '"ev":"Drop"' in part[i][j]]
+    if not oks or not drops:
+        raise vlib.ToolError("selftest: recording has no ok answer / no Drop event")
+
+    def line_no(i, j):
+        return sum(len(r) for r in part[:i]) + j + 1
+
+    scratch = vlib.Outcome(out.prop, out.tier, out.seed)
+    # (1) corrupted field
+    i, j = oks[len(oks) // 2]
+    e = json.loads(part[i][j])
+    e["h"] = "0" * 16
+    mod = [list(r) for r in part]
+    mod[i][j] = json.dumps(e, separators=(",", ":"))
+    acc, bad = validate(scratch, mod, "selftest-a", report=False)
+    want_run = json.loads(part[i][0]).get("run")
+    if not bad or bad[0][1].get("run") != want_run or bad[0][1].get("event_index") != j or \
+            bad[0][0]["what"] != "wrong answer for snapshot revision":
+        raise vlib.ToolError(f"selftest: corrupted hash at line {line_no(i, j)} was not rejected there: {bad[:1]}")
+    # (2) dropped event
+    i, j = drops[len(drops) // 2]
+    mod = [list(r) for r in part]
+    del mod[i][j]
+    acc, bad2 = validate(scratch, mod, "selftest-b", report=False)
+    if not bad2 or bad2[0][1].get("run") != json.loads(part[i][0]).get("run") or bad2[0][1].get("event_index") < j:
+        raise vlib.ToolError(f"selftest: dropped Drop event at line {line_no(i, j)} was not rejected: {bad2[:1]}")
+    out.cov["binding_selftest"] = {"corrupted_hash_rejected_at_line": line_no(i=oks[len(oks) // 2][0], j=oks[len(oks) // 2][1]),
+                                   "dropped_Drop_event_rejected_as": bad2[0][0]["what"] + " @ " + str(bad2[0][0].get("event"))}
+
+
+def race_and_validate(out, seed, hr_args, name, timeout, selftest=False):
     d = vlib.workdir("c12-race-" + name)
     trace_path = os.path.join(d, "trace.ndjson")
     summary, mism = hostrace(seed, hr_args, trace_path, timeout)
@@ -217,6 +253,8 @@ def race_and_validate(out, seed, hr_args, name, timeout):
             extra.setdefault((run, m["detail"]["shape"].get("attempt", 0)), []).append(m)
     complete = [r for r in runs if not json.loads(r[0]).get("aborted")]
     accepted, bad = validate(out, complete, name, report=False)
+    if selftest and not bad and complete:
+        binding_selftest(out, complete)
     for feats, det in bad:
         key = (det.get("run"), det.get("attempt", 0))
         if feats["what"] == "panic" and key in extra:
@@ -249,7 +287,7 @@ def run(out, tier, seed):
     nruns = 300 if tier == "quick" else 5000
     jobs = max(1, min(4, vlib.NCPU // 5))
     args = ["--runs", str(nruns), "--jobs", str(jobs)]
-    summary, accepted = race_and_validate(out, seed, args, tier, timeout=600 if tier == "quick" else 3000)
+    summary, accepted = race_and_validate(out, seed, args, tier, timeout=600 if tier == "quick" else 3000, selftest=True)
     if summary["runs"] and not summary["aborted"]:
         frac = summary["racing_runs"] / summary["runs"]
         if frac < 0.3:
